@@ -9,7 +9,7 @@ from .. import core, mcds
 class C42(core.Prop):
     id = "C42"
     drivers = ["mcds_driver"]
-    ready = False
+    ready = True
     max_workers = 14
     sizes = {"quick": 12000, "thorough": 400000}
     technique = ("property-based testing (Hypothesis) of odpor::Execution histories against a brute-force reference: "
@@ -36,6 +36,8 @@ class C42(core.Prop):
                    "the domain (see notes/C42.md)"]
 
     def strategy(self, tier):
+        if tier == "thorough":      # beyond the statement's bounds: longer histories, more actors
+            return mcds.exec_cases(max_len=80, max_actors=12)
         return mcds.exec_cases(max_len=40)
 
     def fixed_cases(self, tier):
@@ -75,7 +77,7 @@ class C42(core.Prop):
             last = (d, specs)
         d, specs = last
         n = d["n"]
-        oc.labels.append("n=0" if n == 0 else "n<=5" if n <= 5 else "n<=15" if n <= 15 else "n<=30" if n <= 30 else "n<=40")
+        oc.labels.append("n=0" if n == 0 else "n<=5" if n <= 5 else "n<=15" if n <= 15 else "n<=30" if n <= 30 else "n<=40" if n <= 40 else "n<=80")
         fams = sorted({mcds.spec_family(s) for s in specs})
         for f in fams:
             oc.labels.append("fam-" + f)
